@@ -15,6 +15,7 @@ from . import pools as P
 from .model_ser import Conv, Dyn, SerM, SFld, SObj, Spec, TVar
 from .pools import A, B, BOOL, FLOAT, INT, NONE, STR, Ann, AnyT, Coll, Disc, Enm, Fld, Lit, Mapp, NewT, Obj, Opt, Prim, Ref, TD, Tup, Uni, cons
 
+TD3_ = Obj("typeddict", "TD3", (Fld("some_key", INT), Fld("opt_key", Opt(STR), td_required=False)))
 # -- serialized methods / properties ---------------------------------------------------------
 SM1 = SObj(
     "dataclass",
@@ -57,6 +58,7 @@ BOX = SObj(
         SerM("risky_txt", Opt(TVar()), "content_or_raise", on_error="text", alias="r_t"),
     ),
 )
+SPECS_FS = None
 SPECS = [Spec(BOX, INT), Spec(BOX, STR), Spec(BOX, A), Spec(BOX, Opt(INT)), Coll("list", Spec(BOX, INT)), Spec(BOX, Coll("list", P.COLOR))]
 # -- skip / none_as_undefined / Undefined ---------------------------------------------------------
 SK = SObj(
@@ -138,6 +140,12 @@ FSD = SObj("dataclass", "FSD", _FS1F + (SFld("z", Opt(INT), has_default=True, de
 UB = SObj("dataclass", "UB", (SFld("a", INT), SFld("b", Opt(STR), has_default=True, default=None)), serialized=(SerM("a_inc", INT, "a_plus1"),))
 DS = SObj("dataclass", "DS", UB.fields + (SFld("c", INT, has_default=True, default=0),), base="UB", own=("c",), fields_set=True, serialized=UB.serialized)
 SM1S = SObj("dataclass", "SM1S", SM1.fields + (SFld("c", INT, has_default=True, default=0),), base="SM1", own=("c",), serialized=SM1.serialized + (SerM("extra", INT, "const7", kind="property"),))
+# a subclass overriding __init__: it assigns its own fields itself (before / after the inherited __init__)
+FSC = SObj("dataclass", "FSC", _FS1F + (SFld("tag", STR, has_default=True, default="none"), SFld("late", Opt(INT), has_default=True, default=None)), base="FS1", own=("tag", "late"), custom_init=(("tag", "pre"), ("late", "post")))
+FSC2 = SObj("dataclass", "FSC2", _FS1F + (SFld("tag", STR, has_default=True, default="none"),), base="FS1", own=("tag",), custom_init=(("tag", "pre"),), fields_set=True)
+# generic with_fields_set class, observed through parametrised aliases
+FBOX = SObj("dataclass", "FBox", (SFld("item", TVar()), SFld("label", Opt(STR), has_default=True, default=None), SFld("tags", Coll("list", STR), factory="list")), generic=True, fields_set=True)
+HOLD = SObj("dataclass", "Hold", (SFld("box", Spec(FBOX, STR)), SFld("boxes", Coll("list", Spec(FBOX, INT)), factory="list")))
 FS3 = SObj("dataclass", "FS3", (SFld("fs", FS1), SFld("fss", Coll("list", FS1), factory="list"), SFld("n", INT, has_default=True, default=0)))
 FS4 = SObj("dataclass", "FS4", (SFld("p", P.A2, factory="obj:A2"), SFld("q", Opt(FS1), has_default=True, default=None)), fields_set=True, serialized=(SerM("p_a", INT, "p_a"),))
 S.BODIES["p_a"] = lambda s: s.p.a
@@ -161,6 +169,16 @@ RS2 = SObj("dataclass", "RS2", (Fld("r", INT), Fld("g", INT, has_default=True, d
 # "All serializers are naturally inherited"
 RSS = SObj("dataclass", "RSS", RS.fields, base="RS", redecorate=False, serializer=RS.serializer)
 CV2 = SObj("dataclass", "CV2", (SFld("c", RS), SFld("cs", Coll("list", RS), factory="list"), SFld("d", Opt(RS2), has_default=True, default=None)))
+# recursion x conversion: a recursive class with a field conversion from the class itself to a target embedding it again
+RSUM = SObj("dataclass", "RSum", (SFld("label", STR), SFld("first_child", Opt(Ref("RN")))))
+S.CONV_FUNCS["rn_sum"] = lambda realm, n: realm.built["RSum"](n.name.upper(), n.children[0] if n.children else None)
+RN = SObj(
+    "dataclass",
+    "RN",
+    (SFld("name", STR), SFld("children", Coll("list", Ref("RN")), factory="list"), SFld("sibling", Opt(Ref("RN")), has_default=True, default=None, conv=Conv("rn_sum", Ref("RN"), RSUM))),
+)
+# a TypedDict / class used several times in one type (it is then described once, in $defs)
+POST = SObj("dataclass", "Post", (SFld("main_tag", TD3_), SFld("tags", Coll("list", TD3_), factory="list"), SFld("by_name", Mapp(STR, TD3_), factory="dict")))
 DYNS = [
     Dyn(A, C_PAIR),
     Dyn(Coll("list", A), C_PAIR),
@@ -190,9 +208,9 @@ AL = SObj(
         SFld("a_tuple", Tup((INT, STR)), has_default=True, default=(0, "")),
     ),
 )
-TD3 = Obj("typeddict", "TD3", (Fld("some_key", INT), Fld("opt_key", Opt(STR), td_required=False)))
+TD3 = TD3_
 
-SER_OBJECTS: List[TD] = [SM1, SM2, SM3, SM4, ANYF, SK, SK2, NU, UD, UD2, DF, RO, FS1, FS2, FS3, FS4, FSP, FSD, UB, DS, SM1S, CV1, RS, RS2, RSS, CV2, KS, AL, TD3]
+SER_OBJECTS: List[TD] = [SM1, SM2, SM3, SM4, ANYF, SK, SK2, NU, UD, UD2, DF, RO, FS1, FS2, FS3, FS4, FSP, FSD, UB, DS, SM1S, CV1, RS, RS2, RSS, CV2, KS, AL, TD3, FSC, FSC2, RSUM, RN, POST, HOLD]
 SER_EXTRA: List[TD] = [
     Coll("list", SM1),
     Opt(SK),
@@ -220,6 +238,7 @@ MIXED = Enm("Mixed", (("I", 1), ("S", "s"), ("N", None), ("T", (1, 2))))
 
 def ser_pool(tier: str, conversions: bool = True, for_schema: bool = False) -> List[TD]:
     pool = list(P.type_pool(tier)) + SER_OBJECTS + SER_EXTRA + SPECS
+    pool += [Spec(FBOX, INT), Spec(FBOX, Opt(A)), Coll("list", Spec(FBOX, STR)), Tup((P.TD2, Opt(P.TD2))), Coll("list", Tup((TD3, TD3))), Tup((A, Opt(A), Coll("list", A)))]
     if not for_schema:
         # schema generation documents "Only primitive types are supported for Literal/Enum"
         pool.append(MIXED)
@@ -369,7 +388,12 @@ class Gen:
         if isinstance(td, Obj):
             S.realize(td, self.realm)
             req = {f.name: self.shallow(f.t) for f in td.fields if (f.td_required if td.kind == "typeddict" else (f.required and f.init))}
-            return req if td.kind == "typeddict" else self.realm.built[td.name](**req)
+            if td.kind == "typeddict":
+                return req
+            v = self.realm.built[td.name](**req)
+            if S.tracks(td, self.realm):
+                S.expect_set(self.realm, v, set(req) | S.always_set(td))
+            return v
         return self.values(td, 9)[0]
 
     def field_values(self, td: Obj, f: Fld, depth: int) -> List[Any]:
@@ -409,6 +433,8 @@ class Gen:
             full = {f.name: cand[f.name][0] for f in td.fields}
             out: List[Any] = [dict(full)]
             req = {f.name: full[f.name] for f in td.fields if f.td_required}
+            # additional keys early, so that they also occur when the TypedDict is nested
+            out.append({**req, "extra_key": [1, (2, "t")], "zz": None})
             if req != full:
                 out.append(dict(req))
             if depth < 2:
@@ -416,16 +442,29 @@ class Gen:
                     for x in cand[f.name][1:]:
                         out.append({**full, f.name: x})
                 out.append({**full, "zz": 1})
-                out.append({**req, "extra_key": [1, (2, "t")], "zz": None})
             return out
         cls = realm.built[td.name]
         init = [f for f in td.fields if f.init]
         post = [f for f in td.fields if not f.init]
 
+        is_tracked = S.tracks(td, realm)
+
         def build(kwargs, assign=None):
             v = cls(**kwargs)
             for k, x in (assign or {}).items():
                 setattr(v, k, x)
+            if is_tracked:
+                # the documented tracked set of this value: arguments given + default_as_set + init=False + assigned
+                S.expect_set(realm, v, set(kwargs) | S.always_set(td) | set(assign or ()))
+            return v
+
+        def mark(v, op, *names):
+            """set_fields / unset_fields on a built value, with the documented effect on its set"""
+            from apischema.fields import set_fields, unset_fields
+
+            cur = S.expected_tracked(realm, v)
+            (set_fields if op == "set" else unset_fields)(v, *names)
+            S.expect_set(realm, v, (cur | set(names)) if op == "set" else (cur - set(names)))
             return v
 
         full = {f.name: cand[f.name][0] for f in init}
@@ -435,7 +474,6 @@ class Gen:
             out.append(build(minimal))
         if depth >= 2:
             return out
-        is_tracked = S.tracked(out[0]) is not None
         for f in init:
             for x in cand[f.name][1:]:
                 out.append(build({**full, f.name: x}))
@@ -453,15 +491,13 @@ class Gen:
             out.append(build(kwargs, assign))
         if is_tracked:
             # the tracked set is part of the value: also values whose fields were marked unset / set
-            from apischema.fields import set_fields, unset_fields
-
             optional = [f.name for f in td.fields if not f.required or not f.init]
             for f in td.fields:
                 if f.name in optional:
-                    out.append(unset_fields(build(full), f.name))
-                    out.append(set_fields(build(minimal), f.name))
-            out.append(unset_fields(build(full), *optional))
-            out.append(set_fields(build(minimal), *[f.name for f in td.fields]))
+                    out.append(mark(build(full), "unset", f.name))
+                    out.append(mark(build(minimal), "set", f.name))
+            out.append(mark(build(full), "unset", *optional))
+            out.append(mark(build(minimal), "set", *[f.name for f in td.fields]))
         return out
 
 
